@@ -869,6 +869,12 @@ CHECKS["C05"]["technique"] = CHECKS["C05"]["technique"] + ("; fail-closed ast->G
 CHECKS["C03"]["level"] = "proof"
 CHECKS["C05"]["level"] = "proof"
 
+CHECKS["C03"]["technique"] = ("Coq proof of IR->proto->IR isomorphism (C03_iso), read-only and deterministic serialization over a "
+    "heap+proto model of serde (both function value-info formats); per-case vm_compute correspondence with the real to_proto / "
+    "from_proto on generated and edited models")
+CHECKS["C17"]["technique"] = ("Coq proof over the same serde model: totality, consistency (I1-I7) of every returned IR, "
+    "re-serialization fixpoint for every proto; vm_compute correspondence on generated and mutated protos; leaf and identity oracles")
+
 
 def main():
     props = [json.loads(l) for l in open(os.path.join(VERIF, "properties.jsonl"))]
